@@ -85,6 +85,24 @@ def keyrace(rng):
     return lines
 
 
+def unrefrace(rng):
+    """the last references of a handle are dropped by several threads at the same moment"""
+    lines = ["keynew 1 0"]
+    n = rng.randint(1, 3)
+    for h in range(1, n + 1):
+        k = rng.randint(2, 6)
+        lines += ["T %d: write %d" % (h, 300 + h), "T %d: exit %d" % (h, h), "new %d 1" % h]
+        order = rng.choice(["after-join", "while-running", "thread-exit-joins-the-race"])
+        if order == "after-join":
+            lines += ["ref %d" % h] * (k - 1) + ["go %d 1" % h, "go %d 2" % h, "join %d" % h, "unrefrace %d %d" % (h, k)]
+        elif order == "while-running":
+            lines += ["ref %d" % h] * (k - 1) + ["go %d 1" % h, "waitst %d 2" % h, "unrefrace %d %d" % (h, k), "go %d 2" % h]
+        else:
+            lines += ["ref %d" % h] * (k - 1) + ["go %d 1" % h, "go %d 2" % h, "unrefrace %d %d" % (h, k)]
+    lines.append("epoch")
+    return lines
+
+
 def run(ctx):
     rng = ctx.rng
     ctx.design_must_hold("sync/UThread.tla", expect_actions=["Create", "Start", "Exit", "OwnRefDrop", "Ref", "Unref", "Free", "JoinRet"], deadlock=False)
@@ -93,10 +111,15 @@ def run(ctx):
     for variant in (["default", "asan"] if ctx.quick else ["default", "asan", "sim"]):
         exe = build.driver("drv_thread", ["drv_thread.c"], variant=variant, wraps=["pthread_key_create"])
         qenv = {"VERIF_QUARANTINE": "1"} if variant != "asan" else None
-        for batch in range(3 if ctx.quick else 12):
+        nb = 3 if ctx.quick else 12
+        for batch in range(nb + 1):
             lines = []
-            for _ in range(nscen // 3 if ctx.quick else nscen // 12):
-                lines += scenario(rng, rng.randint(1, 5)) if rng.random() < 0.7 else keyrace(rng)
+            if batch == nb:          # one more batch made of reference races only (the window is a few instructions wide: many short rounds)
+                for _ in range(150 if ctx.quick else 600):
+                    lines += unrefrace(rng)
+            for _ in range(0 if batch == nb else (nscen // 3 if ctx.quick else nscen // 12)):
+                r_ = rng.random()
+                lines += scenario(rng, rng.randint(1, 5)) if r_ < 0.55 else keyrace(rng) if r_ < 0.8 else unrefrace(rng)
             sp = ctx.path("th_%s_%d.script" % (variant, batch))
             open(sp, "w").write("\n".join(lines) + "\n")
             base = ctx.path("th_%s_%d" % (variant, batch))
